@@ -348,7 +348,10 @@ func (st *c16State) check(expr string) (ok bool) {
 	return first == nil
 }
 
+// c16Trunc makes a skeleton usable inside a signature: N = !, A = &&, O = ||,
+// L/R = parentheses, p = primitive; at most 40 characters.
 func c16Trunc(s string) string {
+	s = strings.NewReplacer("&&", "A", "||", "O", "!", "N", "(", "L", ")", "R").Replace(s)
 	if len(s) > 40 {
 		return s[:40]
 	}
@@ -379,7 +382,10 @@ func (st *c16State) report() {
 			break
 		}
 	}
-	for _, m := range st.mism {
+	for i, m := range st.mism {
+		if global == "" && i >= 5 {
+			break // the 5 shortest shapes are enough to name an unexplained mismatch
+		}
 		sig := ""
 		switch {
 		case global != "":
@@ -390,7 +396,9 @@ func (st *c16State) report() {
 			sig = "mismatch:" + c16Trunc(m.Skeleton)
 		}
 		what := fmt.Sprintf("%s evaluates to %v, documented grammar (%s) gives %v for %v", m.Expr, m.Got, m.RefTree, m.Want, m.Assign)
-		if global != "" {
+		if global == "" {
+			what += fmt.Sprintf("; %d of %d expressions differ and no single alternative grammar explains all of them", len(st.mism), st.r.Counter("exprs"))
+		} else {
 			what += fmt.Sprintf("; on all %d expressions of this run the code behaves exactly like the grammar %q (%d expressions differ from the documented one)",
 				st.r.Counter("exprs"), global, len(st.mism))
 		}
@@ -424,7 +432,7 @@ func c16(r *vkit.Run) {
 
 	// 0. the controlling primitives really are controllable
 	for i, a := range c16Atoms {
-		for _, neg := range []bool{false, true} {
+		for _, neg := range []bool{false} { // '!p' is part of the property, not of the sanity check
 			expr := a.text
 			if neg {
 				expr = "!" + expr
